@@ -1,19 +1,3 @@
-//! C15-C20: byte hashers, Rescue hashers, padding separation, Merkle trees, random coin.
-
-use vcore::*;
-
-pub mod hs {
-    pub use vhash::*;
-}
-mod c15;
-mod c16;
-mod c17;
-mod c18;
-mod c19;
-mod c20;
-
 fn main() {
-    vref::field::startup_selfcheck();
-    let props = vec![c15::prop(), c16::prop(), c17::prop(), c18::prop(), c19::prop(), c20::prop()];
-    main_with(props);
+    vcore::main_with(vcrypto::props());
 }
